@@ -144,6 +144,24 @@ def case_fn(case):
             r.eq(got, ref, 'cell-value', 'cell/%s/%s' % (where, tag), T=T, P=P)
             if case['pattern'] != 'flat':
                 r.nontrivial = True
+    # --- one live object: equally long but different wavenumber windows asked one after the other in one cell,
+    #     then the interpolation mode switched on the object itself
+    Tm = 0.5 * (Tg[0] + Tg[1]) * 1.07
+    Pm = float(10 ** (0.37 * np.log10(Pg[0]) + 0.63 * np.log10(Pg[1])))
+    for a, b in ((0, 2), (1, 3), (2, 4), (0, 2), (1, 2), (3, 4), (2, 3)):
+        w = wn[a:b].copy()
+        try:
+            got = np.asarray(op.opacity(Tm, Pm, w), float)
+        except Exception as e:
+            r.check(False, 'no-exception', 'exception/%s/window/%s' % (type(e).__name__, tag), exc=repr(e))
+            continue
+        r.eq(got, opac.interp_opacity(x[:, :, a:b], Tg, Pg, Tm, Pm, mode), 'window-sequence', 'window-sequence/%s' % tag,
+             window=[a, b])
+    other = 'exp' if mode == 'linear' else 'linear'
+    op.set_interpolation_mode(other)
+    got = np.asarray(op.opacity(Tm, Pm, None), float)
+    r.eq(got, opac.interp_opacity(x, Tg, Pg, Tm, Pm, other), 'mode-switch-on-live-object', 'mode-switch/%s->%s/%s' % (
+        mode, other, 'ktable' if isk else 'xsec'))
     return r
 
 
